@@ -160,4 +160,40 @@ Proof.
   destruct (finalise _). split; [reflexivity|discriminate].
 Qed.
 
+(** *** exactly the valid transactions are executed *)
+Definition valid_tx (e : env) (s : state) (pool : Z) (m : msg) : Prop :=
+  m_sigok m = true /\ nonce s (m_from m) = m_nonce m /\
+  m_gas m * m_price m <= bal s (m_from m) /\ m_gas m <= pool /\
+  (exists ig, intrinsic_gas wrapu64 (m_data m) (creation m) (negb (e_galaxias e)) = Some ig /\ ig <= m_gas m) /\
+  m_value m <= bal s (m_from m) - m_gas m * m_price m.
+
+Lemma valid_executes e s pool m :
+  wf_msg m -> data_ok (m_data m) -> 0 <= pool < two64 -> 0 <= st_refund s ->
+  valid_tx e s pool m ->
+  exists s' pool' r, apply_transaction wrapu64 run ca e s pool m = Executed s' pool' r.
+Proof.
+  intros Hm Hd Hp Hr (Hsig & Hn & Hf & Hpl & (ig & Hig & Higle) & Hv).
+  destruct (apply_transaction_eq e s pool m Hm Hd Hp Hr) as [_ Hnp].
+  destruct (apply_transaction wrapu64 run ca e s pool m) as [er sx px|s' pool' r|] eqn:Hap.
+  - exfalso. pose proof (rejected_reason run ca e s pool m er sx px Hap) as Hrr.
+    destruct Hm as [Hgas _ _ _].
+    destruct er; try lia; try congruence.
+    destruct Hrr as (ig' & Hig' & Hlt). rewrite Hig in Hig'. inversion Hig'; subst ig'.
+    rewrite wrapu64_small in Hlt by lia. lia.
+  - eexists _, _, _. reflexivity.
+  - congruence.
+Qed.
+
+Lemma executed_valid e s pool m s' pool' r :
+  wf_msg m -> 0 <= pool < two64 -> 0 <= st_refund s ->
+  apply_transaction wrapu64 run ca e s pool m = Executed s' pool' r -> valid_tx e s pool m.
+Proof.
+  intros Hm Hp Hr Hex.
+  destruct (tx_inv run ca OK e s pool m s' pool' r Hm Hp Hr Hex)
+    as (ig & s2 & gas2 & vmerr & burn & H). cbn zeta in H.
+  destruct H as (Hsig & Hn & Hf & Hpl & Hig & Higb & Hv & _).
+  rewrite bal_sub_bal, N.eqb_refl in Hv.
+  repeat split; try assumption. exists ig. split; [exact Hig|lia].
+Qed.
+
 End Wrap.
